@@ -190,6 +190,60 @@ impl World {
         out
     }
 
+    /// Certificates that are not backed by a quorum, for blocks correct nodes voted for (see `Action::Forge`).
+    pub fn forge(&mut self, kind: u8) -> Vec<usize> {
+        let byz = self.byz_ids();
+        let Some(&b) = byz.first() else { return vec![] };
+        let n = self.cfg.spec.n();
+        let votes = self.commit_votes();
+        // the newest vote of a correct node
+        let Some(((view, _), signers)) = votes.iter().filter(|(_, s)| s.keys().any(|k| !self.cfg.byz[*k])).max_by_key(|((v, _), _)| *v) else { return vec![] };
+        let sample = signers.values().next().unwrap().msg.clone();
+        let bits = |set: &dyn Fn(usize) -> bool| {
+            let mut bv = bit_vec::BitVec::from_elem(n, false);
+            for i in 0..n {
+                bv.set(i, set(i));
+            }
+            v2::Signers(bv)
+        };
+        let mut agg = validator::AggregateSignature::default();
+        let just = match kind % 4 {
+            0 | 1 => {
+                for x in &byz {
+                    agg.add(&self.sign_as(*x, v2::ChonkyMsg::ReplicaCommit(sample.clone())).sig);
+                }
+                let signers = if kind % 4 == 0 { bits(&|_| true) } else { bits(&|i| self.cfg.byz[i]) };
+                v2::ProposalJustification::Commit(v2::CommitQC { message: sample.clone(), signers, signature: agg })
+            }
+            2 => {
+                for v in signers.values() {
+                    agg.add(&v.sig);
+                }
+                v2::ProposalJustification::Commit(v2::CommitQC { message: sample.clone(), signers: bits(&|_| true), signature: agg })
+            }
+            _ => {
+                let t = v2::ReplicaTimeout { view: self.committee.view(*view), high_vote: None, high_qc: None };
+                for x in &byz {
+                    agg.add(&self.sign_as(*x, v2::ChonkyMsg::ReplicaTimeout(t.clone())).sig);
+                }
+                let mut map = std::collections::BTreeMap::new();
+                map.insert(t, bits(&|_| true));
+                v2::ProposalJustification::Timeout(v2::TimeoutQC { view: self.committee.view(*view), map, signature: agg })
+            }
+        };
+        let mut out = vec![];
+        let nv = self.sign_as(b, v2::ChonkyMsg::ReplicaNewView(v2::ReplicaNewView { justification: just.clone() }));
+        out.push(self.add_to_pool(nv, true));
+        let leader = self.leader(just_view(&just));
+        if self.cfg.byz[leader] {
+            let (number, forced) = just.get_implied_block(&self.committee.schedule, self.first_block());
+            let payload = forced.is_none().then(|| Payload(vec![0xF0, number.0 as u8]));
+            let p = self.sign_as(leader, v2::ChonkyMsg::LeaderProposal(v2::LeaderProposal { proposal_payload: payload, justification: just }));
+            out.push(self.add_to_pool(p, true));
+        }
+        out
+    }
+
     /// All justifications visible to the adversary, best (highest view) last.
     pub fn known_justifications(&self) -> Vec<v2::ProposalJustification> {
         let mut v: Vec<v2::ProposalJustification> = self.known_commit_qcs().into_iter().map(v2::ProposalJustification::Commit).collect();
